@@ -16,6 +16,7 @@ RULE = (
     "on named / unnamed DataArrays, with coordinates declared in either order, integer and float values; meshgrid_to_1d / "
     "meshgrid_from_1d round trips. Cell values are 1e4*v + 100*i + j so any transposition, flip or mis-pairing changes a value. "
     "Non-trivial: at least 2 rows and 2 columns with data."
+    " Added axes: Fortran / transposed data, NaN patterns, descending / unsorted axes, single-row non-meshgrids, falsy DataArray names, mixed-dtype axes, sheared grids over 1e5 : 1 regions, Datasets built without make_xarray_grid."
 )
 ASSUMPTIONS = ["values encode (variable, row, column) injectively; equality is exact"]
 
